@@ -1399,6 +1399,9 @@ def np_ceil(it, args, kw):
 
 def np_isclose(it, args, kw):
     it.trust("numpy.isclose(a, b): |a-b| <= atol + rtol*|b| with the default tolerances 1e-8, 1e-5")
+    for u, w in ((args[0], args[1]), (args[1], args[0])):
+        if isinstance(u, float) and u in (INF, -INF):
+            return isinstance(w, float) and w == u        # an infinity is close only to itself
     x, y = term_of(args[0]), term_of(args[1])
     rt, at = norm_num(kw.get("rtol", Fraction(1, 10**5))), norm_num(kw.get("atol", Fraction(1, 10**8)))
     absf = lambda t: z3.If(t >= 0, t, -t)
